@@ -2532,14 +2532,21 @@ void abbreviation_from_bracket(const char * source, scratch_pad * scratch, token
 
 
 void read_table_column_alignments(const char * source, token * table, scratch_pad * scratch) {
-	token * walker = table->child->child;
+	token * walker = table->child;
 
 	scratch->table_alignment[0] = '\0';
 	scratch->table_column_count = 0;
 
-	if (walker == NULL) {
+	// A table that opens a list item is preceded by the re-inserted list marker
+	while (walker && walker->type != BLOCK_TABLE_HEADER) {
+		walker = walker->next;
+	}
+
+	if (walker == NULL || walker->child == NULL) {
 		return;
 	}
+
+	walker = walker->child;
 
 	// Find the separator line
 	while (walker->next) {
